@@ -37,9 +37,11 @@ def strip_sentinels(out, k):
     return out
 
 
-def annotate(plain, ss, source, mode, dmp, marks=None):
+def annotate(plain, ss, source, mode, dmp, marks=None, annotator=None):
     marks = marks or sentinels(len(ss))
     anns = [(tuple(sp), marks[j][0], marks[j][1]) for j, sp in enumerate(ss)]
+    if annotator is not None:
+        return annotate_citations(plain, anns, source_text=source, unbalanced_tags=mode, use_dmp=dmp, annotator=annotator)
     return annotate_citations(plain, anns, source_text=source, unbalanced_tags=mode, use_dmp=dmp)
 
 
